@@ -33,6 +33,8 @@ NodeA   == <<49, 91, 108, 97, 98, 101, 108, 61, 34, 123>>
 NodeB   == <<58, 67, 124, 125, 34, 93, 10>>
 ValA    == <<49, 91, 108, 97, 98, 101, 108, 61, 34, 123, 110, 58, 67, 124, 43, 118, 58, 115, 116, 114, 61, 39>>
 ValB    == <<39, 92, 108, 125, 34, 93, 10>>
+ReprA   == <<49, 91, 108, 97, 98, 101, 108, 61, 34, 123, 110, 58, 67, 124, 43, 118, 58, 115, 116, 114, 61>>
+ReprB   == <<92, 108, 125, 34, 93, 10>>
 EdgeA   == <<49, 32, 45, 62, 32, 34>>
 EdgeB   == <<58, 115, 116, 114, 34, 32, 91, 108, 97, 98, 101, 108, 61, 34, 97, 58, 48, 34, 32, 97, 114, 114, 111, 119, 116, 97, 105, 108, 61, 100, 105, 97, 109, 111, 110, 100, 32, 100, 105, 114, 61, 98, 111, 116, 104, 93, 10>>
 Trailer == <<10, 125, 10>>
@@ -48,11 +50,23 @@ NameDoc(s)  == Header \o NodeA \o NameField(s) \o NodeB \o Trailer
 ValueDoc(s) == Header \o ValA \o ValueField(s) \o ValB \o Trailer
 MixedDoc(s) == Header \o EdgeA \o MixedField(s) \o EdgeB \o Trailer
 
-Verdict(doc) == IF DotOK(doc) THEN "wellformed" ELSE "malformed"
-\* kind: "name" | "value" | "mixed"
-Predict(kind, s) == CASE kind = "name" -> Verdict(NameDoc(s))
-                      [] kind = "value" -> Verdict(ValueDoc(s))
-                      [] kind = "mixed" -> Verdict(MixedDoc(s))
+\* well-formed: a DOT graph that still shows what was exported -- `nodes` node statements
+\* with one record separator each, `edges` edge statements
+Verdict(doc, nodes, edges) ==
+  LET c == Run(Init0, doc, 1)
+  IN IF Accepting(c) /\ c.nodes = nodes /\ c.bars = nodes /\ c.edges = edges /\ c.bare = 0
+     THEN "wellformed" ELSE "malformed"
+\* texts produced by the implementation's own escaping functions, put where they are used
+EscapedDoc(e) == Header \o ValA \o e \o ValB \o Trailer           \* e = dot_escape(s)
+ReprDoc(e)    == Header \o ReprA \o e \o ReprB \o Trailer         \* e = dot_repr(s)
+
+\* kind: "name" | "value" | "mixed"  (s is the model's string)
+\*       "escaped" | "repr"          (s is the text the implementation made of it)
+Predict(kind, s) == CASE kind = "name" -> Verdict(NameDoc(s), 1, 0)
+                      [] kind = "value" -> Verdict(ValueDoc(s), 1, 0)
+                      [] kind = "mixed" -> Verdict(MixedDoc(s), 0, 1)
+                      [] kind = "escaped" -> Verdict(EscapedDoc(s), 1, 0)
+                      [] kind = "repr" -> Verdict(ReprDoc(s), 1, 0)
                       [] OTHER -> "unknown"
 
 \* the property for one string: whatever the text, the export stays well-formed
